@@ -61,5 +61,6 @@ fn main() {
         "C09" => c09,
         "C10" => c10,
         "C11" => c11,
+        "C12" => c12,
     );
 }
